@@ -5,3 +5,6 @@ package websocket
 // verifEvent is a hook of the verification harness in /verif; without the "verif" build tag it is
 // an empty function that the compiler inlines away.
 func verifEvent(c *Conn, kind string, obj interface{}) {}
+
+// verifFrameEvent is verifEvent for the frame emission points of writeFrame.
+func verifFrameEvent(c *Conn, kind string, opcode int, fin bool) {}
